@@ -190,6 +190,18 @@ func drawELFModel(t *rapid.T) *elfgen.Model {
 	if uniformInt(t, 8, "noSectionTable") == 0 {
 		m.NoSectionTable = true
 		m.Sections = nil
+		// Without a section header table the payload is the tail of the file: half
+		// of these files get a loadable segment whose file image is cut short by the
+		// end of the file (p_offset+p_filesz beyond EOF). The loader reads what is
+		// there; the rest of the segment is zero up to the in-memory size.
+		if len(m.Segments) > 0 && uniformInt(t, 2, "cutShort") == 0 {
+			sg := &m.Segments[uniformInt(t, len(m.Segments), "cutSeg")]
+			avail := po + uint64(plen) - sg.Off
+			sg.Filesz = avail + uint64(1+uniformInt(t, 64, "beyondEOF"))
+			if sg.Memsz < sg.Filesz {
+				sg.Memsz = sg.Filesz + uint64(uniformInt(t, 40, "cutBss"))
+			}
+		}
 	}
 	return m
 }
@@ -211,8 +223,12 @@ func modelSegments(m *elfgen.Model, file []byte) (blocks []expBlock, memszLess b
 			memszLess = true
 			continue
 		}
-		bs := append([]byte{}, file[s.Off:s.Off+s.Filesz]...)
-		bs = append(bs, make([]byte, s.Memsz-s.Filesz)...)
+		end := s.Off + s.Filesz
+		if end > uint64(len(file)) {
+			end = uint64(len(file)) // file image cut short by the end of the file
+		}
+		bs := append([]byte{}, file[s.Off:end]...)
+		bs = append(bs, make([]byte, s.Memsz-uint64(len(bs)))...)
 		blocks = append(blocks, expBlock{s.Vaddr, bs})
 		rs = append(rs, addrRange{s.Vaddr, s.Vaddr + s.Memsz})
 	}
